@@ -19,6 +19,7 @@ import (
 	"os"
 	"strings"
 	"sync/atomic"
+	"syscall"
 	"time"
 
 	"github.com/miekg/dns"
@@ -484,4 +485,72 @@ func tcpClassFacts() (mismatches []int, smallFrame int) {
 		bad = []int{}
 	}
 	return bad, sf
+}
+
+// ---------------------------------------------------------------- accept
+
+type fakeNetErr struct {
+	msg                string
+	timeout, temporary bool
+}
+
+func (e fakeNetErr) Error() string   { return e.msg }
+func (e fakeNetErr) Timeout() bool   { return e.timeout }
+func (e fakeNetErr) Temporary() bool { return e.temporary }
+
+func acceptErr(kind string) error {
+	op := func(errno syscall.Errno) error {
+		return &net.OpError{Op: "accept", Net: "tcp", Err: os.NewSyscallError("accept4", errno)}
+	}
+	switch kind {
+	case "timeout":
+		return fakeNetErr{"i/o timeout", true, true}
+	case "emfile":
+		return op(syscall.EMFILE)
+	case "econnaborted":
+		return op(syscall.ECONNABORTED)
+	case "ehostunreach":
+		return op(syscall.EHOSTUNREACH)
+	case "enetdown":
+		return op(syscall.ENETDOWN)
+	case "eproto":
+		return op(syscall.EPROTO)
+	case "enobufs":
+		return op(syscall.ENOBUFS)
+	case "enomem":
+		return op(syscall.ENOMEM)
+	case "plain":
+		return errors.New("accept: something else")
+	case "nettemp":
+		return fakeNetErr{"temporary", false, true}
+	case "netperm":
+		return fakeNetErr{"permanent", false, false}
+	}
+	return nil
+}
+
+// execAccept: accept <kind,kind,…> — the REAL tcpEngine.acceptLoop meets these Accept errors; the next client must still be admitted.
+func execAccept(f []string) vlib.Res {
+	if len(f) == 2 && f[1] == "new" {
+		return vlib.Res{Impl: "ok"}
+	}
+	if len(f) != 2 {
+		return vlib.Res{Impl: "bad-op"}
+	}
+	var errs []error
+	if f[1] != "-" {
+		for _, k := range strings.Split(f[1], ",") {
+			e := acceptErr(k)
+			if e == nil {
+				return vlib.Res{Impl: "bad-op"}
+			}
+			errs = append(errs, e)
+		}
+	}
+	ok := server.VerifC11AcceptLoop(errs, 3*time.Second)
+	or := "ok"
+	if !ok {
+		or = "FAIL sig=accept/listener-stops-admitting-after-accept-error errors=" + f[1]
+	}
+	return vlib.Res{Impl: "admitted=" + vlib.B(ok), Oracle: or, Tags: "nt"}
 }
